@@ -232,8 +232,8 @@ pub fn case(rng: &mut Rng, case: u64, out: &mut CaseOut, ops: &OpLog) {
 pub fn run(ctx: &Ctx) {
     ctx.rule("shape sweep: M in 1..6 x P in 1..4 x N in 1..M+P+3 (so N<M+P, N=M+P, N=M+P+1 occur for every shape), zoo models with shared parameters, exact or slightly noisy data so that the fit itself succeeds and the statistics stage is reached; all weight classes; f32/f64; default and random optimizer settings; plus a model failure injected at every model call of the statistics stage (transient and persistent). Executed in child processes of the overflow-checked and the release build. distinct = hash(problem, N); every case is non-trivial (it reaches fit_with_statistics)");
     ctx.assume("Ok is not demanded for N > M+P (a singular normal matrix may legitimately give Err); only Ok => identities and (N<=M+P or failed fit or failing model) => Err, never a panic");
-    let n = ctx.tier.pick(4800, 60000);
-    let wall = ctx.tier.pick(60.0, 400.0);
+    let n = ctx.tier.pick(4800, 240000);
+    let wall = ctx.tier.pick(60.0, 1200.0);
     for profile in ["checked", "release"] {
         let exe = exe_for_profile(profile);
         if !std::path::Path::new(&exe).exists() {
